@@ -5,7 +5,7 @@
 (*   invalid setting  : a documented exception (SettingValidationError / TypeError / ValueError) is    *)
 (*                      raised whatever the string is                                               *)
 (* Which classes may escape at all is the exception-flow model of Pipeline.tla.                      *)
-EXTENDS Pipeline, AbsTrace, NoSpaces, Json, IOUtils
+EXTENDS Pipeline, AbsTrace, NoSpaces, Validate, Json, IOUtils
 
 Tr == ndJsonDeserialize(IOEnv.TRACE_FILE)
 VARIABLE l
@@ -22,8 +22,21 @@ Verdict(r) ==
        ELSE "ok"
 NspModel(r) == IF ~r.eligible THEN [out |-> NSFail, period |-> ""]
                ELSE NoSpacesParse(r.toks, r.order, r.strict, SeqToSet(r.require))
+\* kind "val": a settings argument in abstract form (Validate.tla) and what the constructor / the first call did
+ObservedClass(r) == IF r.exc = "" THEN "ok"
+                    ELSE IF \E i \in 1..Len(r.mro) : r.mro[i] = "SettingValidationError" THEN "sve"
+                    ELSE IF \E i \in 1..Len(r.mro) : r.mro[i] = "TypeError" THEN "typeerror" ELSE "other"
+ValVerdict(r) ==
+  LET e == ArgVerdict(r.argkind, r.d)  o == ObservedClass(r) IN
+  IF o = "other" THEN <<"prop", "undocumented-exception-escaped">>
+  ELSE IF e = "unspecified" THEN <<"ok", "ok">>
+  ELSE IF e = "ok" /\ o # "ok" THEN <<"prop", "valid-setting-rejected">>
+  ELSE IF e # "ok" /\ o = "ok" THEN <<"prop", "invalid-setting-accepted">>
+  ELSE IF e # o THEN <<"abs", "validation-class">>
+  ELSE <<"ok", "ok">>
 Check(r) ==
-  IF r.kind = "abs" THEN (IF AbsVerdict(r) = "drift" THEN PrintT(<<"REJECT", r.tid, "abs", "absparser", AbsModel(r)>>) ELSE TRUE)
+  IF r.kind = "val" THEN (LET v == ValVerdict(r) IN IF v[1] = "ok" THEN TRUE ELSE PrintT(<<"REJECT", r.tid, v[1], v[2], ArgVerdict(r.argkind, r.d)>>))
+  ELSE IF r.kind = "abs" THEN (IF AbsVerdict(r) = "drift" THEN PrintT(<<"REJECT", r.tid, "abs", "absparser", AbsModel(r)>>) ELSE TRUE)
   ELSE IF r.kind = "nsp" THEN
        (IF ~r.skip /\ ~(NspModel(r).out = r.out /\ (r.out = NSFail \/ NspModel(r).period = r.period))
           THEN PrintT(<<"REJECT", r.tid, "abs", "nospaces", NspModel(r)>>) ELSE TRUE)
